@@ -3,8 +3,6 @@ import TemprenModel.Props.C10Grammar
 namespace Tempren
 namespace C09
 
-theorem lexer_grammar_as_modelled : C10.Pinned_lexerGrammar := C10.lexer_grammar_as_modelled
-theorem parser_grammar_as_modelled : C10.Pinned_parserGrammar := C10.parser_grammar_as_modelled
 theorem lexer_automaton_as_modelled : C10.Pinned_lexerATN := C10.lexer_automaton_as_modelled
 theorem lexer_rules_as_modelled : C10.Pinned_lexerRuleNames := C10.lexer_rules_as_modelled
 theorem lexer_modes_as_modelled : C10.Pinned_lexerModeNames := C10.lexer_modes_as_modelled
